@@ -35,6 +35,11 @@ func runC08(c *Ctx) {
 	if es := c.P.LangFunc("(*Evaluator).evalStatement"); es != nil {
 		c.shared("R10", "C07/R1", "a return inside a loop ends the call with that value: every loop consumes break and continue only and passes every other outcome of its body (the return signal included) on unchanged", keyHas("loop-bod"), func(s *Ctx) { c07LoopConsumption(s, es) })
 	}
+	c.shared("R16", "C07/R2", "a call yields the value of the return statement that ended it: once the body of a loop raises anything but continue nothing else of the loop runs — a post expression evaluated after a `return` assigns to the cell the return slot points into", keyHas("post-not-after-break", "post-on-every"), func(s *Ctx) {
+		if es := s.P.LangFunc("(*Evaluator).evalStatement"); es != nil {
+			c07ForOrder(s, es)
+		}
+	})
 	c.shared("R15", "C07/R10", "a call yields the value of the executed return statement, or null if it has none: the parser gives a return a value exactly where the statement has not ended (a newline after `return` ends it; the next line is a statement of its own)", keyHas("return-node"), func(s *Ctx) { returnValuePresence(s, "R10") })
 	c.shared("R13", "C02/R3", "`next` executed inside a function ends the current element wherever the call is written, a rule pattern included: evalRules returns at once on the next signal from a pattern as from a body", keyHas("errNext-test"), c02R3)
 	c.shared("R14", "C02/R4", "`next` raised while a rule's pattern is evaluated is not read as `no match`: the pattern gate passes every error of the pattern on", keyHas("pattern-gate"), c02R4)
